@@ -94,6 +94,40 @@ def build_sessions(rng, n):
                 S.append(dict(kind='p2sh-plain', variant='P2SH-off', args=['--modify-flags=-P2SH', '0x' + tmpl.hex(), '0x' + inner.hex()], scripts=[('script', tmpl)]))
             else:
                 S.append(dict(kind='p2sh-plain', args=['0x' + tmpl.hex(), '0x' + inner.hex()], scripts=[('script', tmpl), ('P2SH script', inner)]))
+        elif r < 0.56 and r >= 0.5:
+            # sessions in which a step FAILS (plain script error, thrown number error, refused switch to an oversized scriptPubKey):
+            # a refused step executes nothing, so listing and marker must stay where they are, also across a following rewind
+            k = rng.choice(['plain', 'throw', 'throw-minimal', 'seam'])
+            pre = rng.choice([bytes([OP_1, OP_2, OP_ADD]), bytes([OP_1]), bytes([OP_5, OP_DUP, OP_DROP, OP_NOP]), bytes([OP_1, OP_IF, OP_2, OP_ENDIF])])
+            if k == 'plain':
+                s = pre + rng.choice([bytes([OP_0, OP_VERIFY]), bytes([OP_DROP, OP_DROP, OP_DROP]), bytes([OP_RETURN]), bytes([OP_FROMALTSTACK])]) + bytes([OP_5])
+                okn = len(decode_all(pre)) + (1 if s[len(pre)] == OP_0 else 0)
+                while True:     # number of operations that succeed before the failing one (by the reference)
+                    it = Interp(s, [], STANDARD, BASE)
+                    okn = 0
+                    try:
+                        while not it.at_end():
+                            it.step()
+                            okn += 1
+                    except (ScriptFail, NumErr):
+                        pass
+                    break
+                S.append(dict(kind='failing-step/plain', args=['0x' + s.hex()], scripts=[('script', s)], fail_at=okn))
+            elif k in ('throw', 'throw-minimal'):
+                bad = push_only(bytes([1, 2, 3, 4, 5])) + bytes([OP_1ADD]) if k == 'throw' else push_only(bytes([5, 0])) + bytes([OP_NEGATE])
+                s = pre + bad + bytes([OP_ADD])
+                S.append(dict(kind='failing-step/' + k, args=['0x' + s.hex()], scripts=[('script', s)], fail_at=len(decode_all(pre)) + 1))
+            else:
+                ssig = pre if rng.random() < 0.5 else bytes([OP_1])
+                spk = b''.join(push_only(bytes([0x61]) * 520) for _ in range(20))[:10001] + bytes([OP_NOP]) * 3
+                if len(spk) <= 10000 or decode_all(spk) is None:
+                    spk = b''.join(push_only(bytes([0x61]) * 520) for _ in range(19)) + bytes([OP_NOP]) * 200
+                fund = rsign.funding_tx(rng, [(10000, spk)])
+                tx = rsign.spending_tx(rng, [(rtx.txid(fund), 0)], nout=1, version=2, locktime=0, sequences=[0xffffffff])
+                tx.vin[0][2] = ssig
+                tx.wit = None
+                S.append(dict(kind='failing-step/seam', args=['--tx=' + rtx.ser_tx(tx).hex(), '--txin=' + rtx.ser_tx(fund).hex()],
+                              scripts=[('scriptSig', ssig), ('scriptPubKey', spk)], commit=0, fail_at=len(decode_all(ssig))))
         elif r < 0.5:
             # a legacy P2SH spend whose redeem script is EMPTY (legal: nothing more is executed), after other pushes in the scriptSig
             x = rng.choice([bytes([0x51]), bytes([1, 2, 3]), bytes([rng.randrange(17, 0x80)]), bytes(rng.randrange(1, 256) for _ in range(rng.choice([2, 4, 20])))])   # (minimal pushes of true values)
@@ -171,6 +205,10 @@ def worker(job):
             cmds = ['print']
             plan = []
             k = 0
+            fail_at = sess.get('fail_at')
+            if fail_at is not None:
+                plan = ['step'] * fail_at + ['step', 'step', 'rewind', 'step', 'step', 'rewind', 'rewind', 'step', 'step', 'step']
+                k = total + 1
             while k < total + 1:
                 if k > 1 and rng.random() < 0.12:
                     plan.append('rewind')
@@ -241,7 +279,14 @@ def worker(job):
                 seg_prn = segs[seg_i + 2]          # the following print
                 seg_i += 2
                 d = seg_cmd['dump']
-                if p == 'step':
+                if p == 'step' and fail_at is not None and pos == fail_at:
+                    # the refused step: nothing is executed, nothing may move
+                    same = all(d[f] == prev_dump[f] for f in ('seq', 'pc', 'script', 'stack', 'alt', 'done', 'vfsize'))
+                    part.count('refused_steps', sess['kind'])
+                    if not same:
+                        marker_bad = ('refused-step-changes-the-session', pos, [f for f in ('seq', 'pc', 'script', 'stack', 'alt', 'done', 'vfsize') if d[f] != prev_dump[f]])
+                        break
+                elif p == 'step':
                     if pos < total:
                         e = exp[pos]
                         if e[0] == 'op':
